@@ -55,6 +55,8 @@ func DocAlphabet(name string) []WOp {
 		return []WOp{docPut("a", 1), docPutAll(2, "a"), docDel("a"), docPut("a", 2), docPutAll(1, "a", "A"), docPutBatch(2, "A", "ab"), docDel("zz")}
 	case "tiny":
 		return []WOp{docPut("a", 1), docPutAll(2, "a"), docDel("a")}
+	case "twokeys":
+		return []WOp{docPut("a", 1), docPutAll(2, "b"), docDel("a")}
 	case "keys":
 		return []WOp{docPut("a", 1), docPut("A", 2), docPut("ab", 1), docPut("a.b-1", 2), docPutAll(1, "a.b-1", "ab"), docDel("A"), docDel("a.b-1"), docPutBatch(2, "a", "A")}
 	}
